@@ -406,6 +406,7 @@ type streamsBench struct {
 	drv     *driver.Driver
 	numWG   int
 	streams int
+	wfPerWG int
 }
 
 func (b *streamsBench) SelectGPU([]int)   {}
@@ -419,7 +420,10 @@ func (b *streamsBench) Run() {
 	for i := 0; i < b.streams; i++ {
 		qs = append(qs, b.drv.CreateCommandQueue(ctx))
 	}
-	const wfPerWG = 16
+	wfPerWG := b.wfPerWG
+	if wfPerWG == 0 {
+		wfPerWG = 16
+	}
 	for _, q := range qs {
 		args := emptyKernelArgs{}
 		b.drv.EnqueueLaunchKernel(q, co, [3]uint32{uint32(64 * wfPerWG * b.numWG), 1, 1},
@@ -519,6 +523,8 @@ func simMode(args []string) {
 		rn.AddBenchmark(cb)
 	case "streams":
 		rn.AddBenchmark(&streamsBench{drv: rn.Driver(), numWG: size, streams: rounds})
+	case "longk": // one queue, one long kernel: size work-groups of `rounds` wavefronts
+		rn.AddBenchmark(&streamsBench{drv: rn.Driver(), numWG: size, streams: 1, wfPerWG: rounds})
 	case "multiq":
 		mq = &multiqBench{drv: rn.Driver(), numWG: size, prepMiB: rounds}
 		rn.AddBenchmark(mq)
